@@ -109,6 +109,10 @@ def token(v, depth=0):
     return ('obj', type(v).__name__, id(v))
 
 
+# list attributes that are per-object state (not compiled program): namespace stacks, caches, scratch lists
+LOGGED_LIST_ATTRS = ('_data', '_stack', '_cache', 'cache', 'stack', 'scratch', '_scratch', 'pending', '_pending', 'results', '_results')
+
+
 class LogDict(dict):
     _label = '?'
 
@@ -117,6 +121,51 @@ class LogDict(dict):
 
     def __getitem__(self, k):
         return REC.hit('R', self._label, 'item:%s' % (k,), None, lambda: dict.__getitem__(self, k))
+
+
+class LogList(list):
+    """list held in an attribute of a shared object: in-place mutations are W events on that attribute's location (the value token is
+    the content after the mutation), so that a namespace stack or cache list shared between renders is seen by the schedule synthesis"""
+    _label = '?'
+    _attr = '?'
+
+    def _w(self, fn, *a):
+        box = {}
+
+        def act():
+            box['r'] = fn(self, *a)
+        # token after the mutation: computed on a copy so that the event carries the new content
+        tmp = list(self)
+        try:
+            fn(tmp, *a)
+        except Exception:
+            pass
+        REC.hit('W', self._label, self._attr, token(tmp), act)
+        return box.get('r')
+
+    def append(self, x):
+        return self._w(list.append, x)
+
+    def pop(self, *a):
+        return self._w(list.pop, *a)
+
+    def extend(self, xs):
+        return self._w(list.extend, list(xs))
+
+    def insert(self, i, x):
+        return self._w(list.insert, i, x)
+
+    def remove(self, x):
+        return self._w(list.remove, x)
+
+    def clear(self):
+        return self._w(list.clear)
+
+    def __setitem__(self, i, x):
+        return self._w(list.__setitem__, i, x)
+
+    def __delitem__(self, i):
+        return self._w(list.__delitem__, i)
 
 
 def instrument(obj, label):
@@ -128,6 +177,10 @@ def instrument(obj, label):
             ld = LogDict(v)
             ld._label = label + '.' + a
             obj.__dict__[a] = ld
+        elif type(v) is list and a in LOGGED_LIST_ATTRS:
+            ll = LogList(v)
+            ll._label, ll._attr = label, a
+            obj.__dict__[a] = ll
 
     def ga(self, name, _c=cls):
         if name.startswith('__') or name == '_schedsmt_label':
@@ -149,7 +202,8 @@ def instrument(obj, label):
         REC.hit('W', label, name, token(value), lambda: _c.__setattr__(self, name, value))
 
     try:
-        obj.__class__ = type('Obs_' + cls.__name__, (cls,), {'__getattribute__': ga, '__setattr__': sa, '_schedsmt_label': label})
+        # object.__setattr__: classes with their own __setattr__ (TemplateDict) would swallow the assignment
+        object.__setattr__(obj, '__class__', type('Obs_' + cls.__name__, (cls,), {'__getattribute__': ga, '__setattr__': sa, '_schedsmt_label': label}))
     except TypeError:
         pass
 
@@ -289,7 +343,7 @@ def run_solo(make_template, inputs, cooked, call):
     return traces, solo
 
 
-def synthesize(traces, blocked, timeout_ms=60000):
+def synthesize(traces, blocked, timeout_ms=60000, only_loc=None, final_differs=None):
     """-> ('sat', order, witness) | ('unsat', None, None) | ('unknown', ...)"""
     ev = [(tid, i) + e for tid, tr in traces.items() for i, e in enumerate(tr)]
     if not ev:
@@ -354,10 +408,26 @@ def synthesize(traces, blocked, timeout_ms=60000):
                 key = (r[0], r[1], w[0], w[1])
                 if key in blocked:
                     continue
+                if only_loc is not None and tuple(r[3:5]) != tuple(only_loc):
+                    continue
                 cond = z3.And(reads_from(r, w), prefix_ok(r), prefix_ok(w))
                 cands.append((key, cond, r, w))
     if not cands:
         return 'unsat', None, None, 0
+    if final_differs is not None:
+        # amplification: the thread that performs the foreign read also performs the LAST write to that location (what it writes
+        # back was computed from the foreign value: a counter restored by value, a saved-and-restored flag ...)
+        kept = []
+        for key, cond, r, w in cands:
+            later = [x for x in writes.get(r[3:5], []) if x[0] == r[0] and x[1] > r[1]]
+            if not later:
+                continue
+            last = max(later, key=lambda x: x[1])
+            others = [o for o in writes.get(r[3:5], []) if o[0] != r[0]]
+            kept.append((key, z3.And(cond, *[pos(last) > pos(o) for o in others]), r, w))
+        cands = kept
+        if not cands:
+            return 'unsat', None, None, 0
     sel = [z3.Bool('c%d' % i) for i in range(len(cands))]
     for b, (key, cond, r, w) in zip(sel, cands):
         s.add(z3.Implies(b, cond))
@@ -371,9 +441,11 @@ def synthesize(traces, blocked, timeout_ms=60000):
     return 'sat', order, hit[0], len(cands)
 
 
-def replay(make_template, inputs, cooked, call, order):
-    t = make_template()
-    instrument_template(t, cooked)
+def replay(make_template, inputs, cooked, call, order, template=None):
+    t = template
+    if t is None:
+        t = make_template()
+        instrument_template(t, cooked)
     REC.tracked = set(inputs)
     REC.order = list(order)
     REC.pos = 0
@@ -397,6 +469,66 @@ def replay(make_template, inputs, cooked, call, order):
     return got
 
 
+def _solo_on(t, inputs, call, record):
+    """run every thread body alone, one after the other, on the GIVEN (instrumented) template -> (traces, results)"""
+    traces, res = {}, {}
+    for name, ns in inputs.items():
+        REC.tracked = set(inputs)
+        if record:
+            REC.start_record()
+        box = {}
+
+        def body():
+            try:
+                box['r'] = ('ok', call(t, ns))
+            except Exception as e:
+                box['r'] = ('exc', type(e).__name__, str(e)[:100])
+        th = threading.Thread(target=body, name=name)
+        th.start()
+        th.join()
+        REC.mode = 'off'
+        traces[name] = list(REC.events.get(name, [])) if record else []
+        res[name] = box.get('r')
+    return traces, res
+
+
+def amplify(make_template, inputs, cooked, call, loc, rounds=260):
+    """A race on location `loc` whose single replay shows no difference may still corrupt the shared object a little each time
+    (a counter restored by value, a cache entry leaked).  Deterministic amplification: warm a fresh template (every thread once,
+    alone), record the steady-state solo traces on it, let the solver synthesise an interleaving that exhibits the same race on
+    those traces, and replay that schedule `rounds` times on the SAME object.  -> (round, differs) of the first round whose thread
+    results differ from the steady-state solo results, or (None, None)."""
+    t = make_template()
+    instrument_template(t, cooked)
+    _solo_on(t, inputs, call, False)                      # warm-up (lazy compilation etc.)
+    traces, solo = _solo_on(t, inputs, call, True)        # steady-state traces and results
+    _t2, solo2 = _solo_on(t, inputs, call, False)
+    if solo2 != solo or any(len(tr) == 0 for tr in traces.values()):
+        return None, None, 0
+    init = None
+    for tr in traces.values():
+        for e in tr:
+            if e[0] == 'R' and tuple(e[1:3]) == tuple(loc):
+                init = e[3]
+                break
+        if init is not None:
+            break
+    r, order, hit, ncand = synthesize(traces, set(), only_loc=loc, final_differs=(loc, init))
+    if r != 'sat':
+        return None, None, 0
+    old_timeout = REC.slot_timeout
+    REC.slot_timeout = 0.2
+    try:
+        for i in range(1, rounds + 1):
+            got = replay(make_template, inputs, cooked, call, order, template=t)
+            differs = {k: (solo[k], got.get(k)) for k in solo if got.get(k) != solo[k]}
+            if differs:
+                return i, differs, i
+    finally:
+        REC.slot_timeout = old_timeout
+    return None, None, rounds
+
+
 def analyse(make_template, inputs, cooked, call, max_candidates=32):
     """full E3 pipeline for one scenario -> result dict"""
     t0 = time.time()
@@ -409,6 +541,7 @@ def analyse(make_template, inputs, cooked, call, max_candidates=32):
         out.update(verdict='vacuous', message='a solo trace contains no shared event')
         return out
     blocked = set()
+    amplified = set()
     for attempt in range(max_candidates + 1):
         ts = time.time()
         r, order, hit, ncand = synthesize(traces, blocked)
@@ -430,6 +563,17 @@ def analyse(make_template, inputs, cooked, call, max_candidates=32):
             out.update(verdict='violation', message=desc, schedule=order, differs={k: (repr(a)[:120], repr(b)[:120]) for k, (a, b) in differs.items()},
                        skipped_slots=REC.skipped)
             break
+        # no visible difference in one replay: does the race corrupt the shared object cumulatively?
+        loc = tuple(rd[3:5])
+        if loc not in amplified and len(amplified) < 6:
+            amplified.add(loc)
+            rnd, adiff, done = amplify(make_template, inputs, cooked, call, loc)
+            out['amplified'] = out.get('amplified', 0) + done
+            if rnd is not None:
+                out.update(verdict='violation', message='%s; repeated %d times on one template object the thread results change' % (desc, rnd),
+                           schedule=order, amplify={'loc': list(loc), 'rounds': rnd},
+                           differs={k: (repr(a)[:120], repr(b)[:120]) for k, (a, b) in adiff.items()}, skipped_slots=REC.skipped)
+                break
         out['benign'].append(desc)
         blocked.add(key)
     else:
